@@ -259,6 +259,11 @@ func c07NewRig(dir string) *c07Rig {
 	p2, d2 := mkProf("prof2", "dev2", &dnsmsg.BlockingModeREFUSED{}, 3600*time.Second, []filter.RuleText{"||custom-p2.test^"})
 	rig.profs[netip.MustParseAddr("10.1.0.1")] = [2]any{p1, d1}
 	rig.profs[netip.MustParseAddr("10.2.0.1")] = [2]any{p2, d2}
+	// A profile whose settings the message constructor rejects (a negative
+	// filtered-response TTL): the error is collected and the request is
+	// served with the server's default constructor.
+	p5, d5 := mkProf("prof5", "dev5", &dnsmsg.BlockingModeNXDOMAIN{}, -1*time.Second, nil)
+	rig.profs[netip.MustParseAddr("10.5.0.1")] = [2]any{p5, d5}
 	db := agdtest.NewProfileDB()
 	db.OnProfileByLinkedIP = func(_ context.Context, ip netip.Addr) (*agd.Profile, *agd.Device, error) {
 		if pd, ok := rig.profs[ip]; ok {
@@ -394,6 +399,7 @@ var c07Alphabet = []c07Req{
 	{Name: "doh-anon-clean", Client: "10.4.0.2", Host: "clean.test.", QType: dns.TypeA, DoH: true, Path: "/dns-query"},
 	{Name: "p1-clean-cd", Client: "10.1.0.1", Host: "clean.test.", QType: dns.TypeA, CD: true},
 	{Name: "p2-danger-txt", Client: "10.2.0.1", Host: "danger.test.", QType: dns.TypeTXT},
+	{Name: "p5-badconf-blocked", Client: "10.5.0.1", Host: "blocked.test.", QType: dns.TypeA},
 }
 
 func (q c07Req) wire(id uint16) []byte {
